@@ -74,7 +74,8 @@ def select_one_or_select_many_or_infer(quantifier: Union[Type[An], Type[The], Ty
     if isinstance(entity_, (Entity, SetOf)):
         q = quantifier(entity_)
     elif isinstance(entity_, ResultQuantifier) and not properties:
-        q = entity_
+        # the(...) of a term that is already quantified (predicate form: T(From(d), f=v)) asks for its single solution.
+        q = The(entity_._child_) if quantifier is The and not isinstance(entity_, The) else entity_
     elif isinstance(entity_, CanBehaveLikeAVariable):
         q = quantifier(entity(entity_, *properties))
     elif isinstance(entity_, (list, tuple)):
